@@ -20,6 +20,11 @@ CLAIMS = {
         technique="Lean 4 invariant proof over ALL histories of move/commit/erase operations of a statement-level model of Cell::updatePositions / checkNewPosition / commitInjections / activate / deactivate (doubly linked active lists, link counters); tables and leave-offset / re-entry kernels regenerated from the source; correspondence of the complete cell/link state with the real binary after every step; positional oracle",
         text="C09_inv_reachable: in every reachable state each particle is in exactly one list, counters equal list lengths, the active-cell list holds exactly the occupied cells once, link counters equal their active ends and the active-link list holds exactly the links with two occupied cells; C09_iteration_visits_all covers self-removal during the sweep; C09_pos_reachable: every particle lies in its cell; C09_wrap_exact: crossing periodic faces shifts by exactly -+L in the crossed directions; C09_count_conserved: no particle is lost in a periodic or wall-closed box.",
         note=BASE_NOTE + "Per-step displacement below one cell (else model and code both stop with PARTICLEFLEWTOOFAR, compared). g_geom_eps slack is a model parameter (1e-10 as a rational). Not modelled: inlet cells, particle creation during the run."),
+    "C08": dict(
+        level="proof", design="DESIGN.md section 3, C08 (PARTIAL: accelerated flight, rounding-decided geometry)",
+        technique="Lean 4 + Mathlib proofs over the reals of the reflection laws for the reflector definitions regenerated from reflector_{mirror,bounce_back,stochastic}.h by symbolic execution; Lean 4 proofs (core Rat) about a model of the collision loop (Cell::doCollision, checkForHit, WallTriangle::hit, checkNewPosition) for force-free flight in a cuboid: termination, earliest hit, confinement and constant particle number over any number of steps under a no-exact-edge-hit hypothesis, witness of the exact-edge defect; correspondence of outcome, velocity (exact), position and cell with the real binary; oracles for all reflectors with and without forces",
+        text="Mirror reverses exactly the normal velocity component and keeps the tangential ones and the speed; bounce-back reverses v; the stochastic reflector keeps the speed and re-emits inward for every pair of random numbers; r' = hit + eps n lies inside (all over R, for the generated definitions). C08_confined_cuboid / C08_count_run: force-free particles stay strictly between the walls and their number is constant for every step count, or the documented error is raised, provided no hit is exactly on an edge; C08_edge_witness shows that an exact edge hit with ReflectorMirror loses the particle - reproduced on the binary and recorded as known finding. PARTIAL: accelerated flight, c_wt_dist_eps decisions in doubles, STL walls, the stochastic reflector inside the loop are covered by the oracles only.",
+        note=BASE_NOTE + "The collision-loop model is hand-written (tie: correspondence); the reflector laws are about regenerated definitions (tie: translator + rat-instance bridge theorems). eps/delta/geps enter the model as the exact rational values of the C++ doubles."),
     "C04": dict(
         level="proof", design="DESIGN.md section 3, C04",
         technique="Lean 4 proofs about the shared one-step model Sympler/Dyn.lean (pair kernel with acts-on guards, own cutoff, symmetry factor): reciprocity, free-only, own cutoff, momentum invariance for every step count; correspondence of both force buffers of every particle with the real binary after every step in the exact-arithmetic regime; momentum oracle on the real runs",
